@@ -68,17 +68,46 @@ class GuardScan(ast.NodeVisitor):
         self.stack.pop()
 
     def _summarise_check(self, fn):
+        """locals = names bound inside the function; a mutating method call is harmless when its receiver is a local
+        that only ever holds FRESH containers (literals, comprehensions, list()/set()/dict()/... calls): however the
+        check is written (plain or annotated assignment, append or add), it then cannot reach caller-visible state"""
         local = {a.arg for a in fn.args.args + fn.args.kwonlyargs}
+        may_alias = set()
+        FRESH_CALLS = {"list", "set", "dict", "tuple", "frozenset", "sorted", "Counter", "defaultdict", "OrderedDict", "deque"}
+
+        def fresh(e):
+            if e is None:
+                return True
+            if isinstance(e, (ast.List, ast.Set, ast.Dict, ast.Tuple, ast.ListComp, ast.SetComp, ast.DictComp, ast.Constant)):
+                return True
+            if isinstance(e, ast.Call):
+                f = e.func
+                nm = f.id if isinstance(f, ast.Name) else (f.attr if isinstance(f, ast.Attribute) else "")
+                return nm in FRESH_CALLS
+            return False
+
         for n in ast.walk(fn):
             if isinstance(n, ast.Assign):
                 for t in n.targets:
                     if isinstance(t, ast.Name):
                         local.add(t.id)
+                        if not fresh(n.value):
+                            may_alias.add(t.id)
+            elif isinstance(n, ast.AnnAssign) and isinstance(n.target, ast.Name):
+                local.add(n.target.id)
+                if not fresh(n.value):
+                    may_alias.add(n.target.id)
+            elif isinstance(n, ast.NamedExpr) and isinstance(n.target, ast.Name):
+                local.add(n.target.id)
+                if not fresh(n.value):
+                    may_alias.add(n.target.id)
             elif isinstance(n, (ast.For, ast.comprehension)):
                 t = n.target
                 for m in ast.walk(t):
                     if isinstance(m, ast.Name):
                         local.add(m.id)
+                        may_alias.add(m.id)      # loop variables range over caller-visible objects
+        local -= may_alias
         local.discard("self")
         # arguments are caller-owned: mutating them is not pure
         args = {a.arg for a in fn.args.args}
